@@ -1202,7 +1202,10 @@ class _Ctx:
         if isinstance(e, ast.DictComp):
             cenv = dict(env)
             it = self.comp_iter(e.generators, cenv)
-            return ("dictfam", norm_it(it), self.expr(e.key, cenv), self.expr(e.value, cenv))
+            it_n, k_, v_ = norm_it(it), self.expr(e.key, cenv), self.expr(e.value, cenv)
+            if k_ == ("elem", it_n) and v_ == ("index", it_n, ("elem", it_n)) and not (isinstance(it, tuple) and len(it) == 2 and isinstance(it[1], tuple) and it[0] == it_n):
+                return ("call", G("dict"), (it_n,), ())  # {k: d[k] for k in d} is dict(d)
+            return ("dictfam", it_n, k_, v_)
         if isinstance(e, ast.JoinedStr):
             return ("opaque", "fstring", ())
         if isinstance(e, ast.NamedExpr):
@@ -1293,12 +1296,13 @@ class _Ctx:
             else:
                 flat_.append(x)
         args = flat_
+        n_inl_ = ev.calls_inlined
         res = self.call_value(f, args, kwargs)
-        if is_t(res, "call") and getattr(self, "withs", None):
-            # calls evaluated inside `with ctx:` blocks (through inlined helpers too): rules about the ambient context of a call read this table
-            ev.call_ctx.setdefault(res, []).append(tuple(self.withs))
-        elif is_t(res, "call"):
-            ev.call_ctx.setdefault(res, []).append(())
+        # calls evaluated inside `with ctx:` blocks (through inlined helpers too): rules about the ambient context of a call read this table
+        # (a call through a joined callee is the join of the calls: each of them is recorded)
+        for _c, leaf_ in (phi_paths(res) if is_t(res, "phi") else [((), res)]) if ev.calls_inlined == n_inl_ else ():  # (a value flowing out of an inlined callee was recorded there)
+            if is_t(leaf_, "call"):
+                ev.call_ctx.setdefault(leaf_, []).append(tuple(getattr(self, "withs", None) or ()))
         return res
 
     # positional order of the generative-function-interface methods: `gf.edit(key, tr, request=r, argdiffs=a)` is the same call as `gf.edit(key, tr, r, a)`
